@@ -17,7 +17,7 @@ Jump == \E d \in P({1, 2, 3}) : /\ now + d <= MaxTime /\ now' = now + d
 \* one candidate per kind of step, so that kinds are equally likely in simulation
 GenStep == \/ \E n \in P(Nodes), id \in P(Ids) : Create(n, id) \/ Extend(n, id) \/ Expire(n, id)
            \/ \E m \in P(net) : Deliver(m, FALSE) \/ Deliver(m, TRUE) \/ Lose(m)
-           \/ \E a \in P(Nodes) : \E b \in P(Nodes \ {a}) : PushPull(a, b)
+           \/ \E a \in P(Nodes) : \E b \in P(Nodes \ {a}) : \E big \in P(BOOLEAN) : PushPull(a, b, big)
            \/ \E n \in P(Nodes) : GC(n)
            \/ Jump
 GenNext == /\ Len(hist) < HistLen
